@@ -731,6 +731,20 @@ pub fn random_cases(seed: u64, thorough: bool, only: &str) -> Vec<Value> {
 /// Steer towards the PMTiles writer's root/leaf switch: find (by probing the REAL writer and reading the header of
 /// its output with the independent decoder) the largest tile count that still yields a root-only directory, and
 /// return cases for every count in a window around it. Tile lengths vary so that the directory compresses badly.
+/// the PMTiles case with the first `n` tiles of the boundary family (same seed -> same tiles and sizes)
+pub fn pmtiles_boundary_case(seed: u64, n: usize) -> Value {
+	let mut rng = Rng::new(seed ^ 0xB0DA);
+	let mut classes = serde_json::Map::new();
+	let all: Vec<Value> = (0..16383u32)
+		.map(|i| {
+			let p = i + 1;
+			classes.insert(p.to_string(), json!([rng.range(20, 619), 0]));
+			json!([8, 64 + (i % 128), 64 + (i / 128), p])
+		})
+		.collect();
+	json!({"k":"case","origin":"writer","fmt":"pmtiles","tf":"pbf","tc":"none","tiles":all[..n.min(16383)].to_vec(),"classes":classes})
+}
+
 pub fn pmtiles_boundary_cases(seed: u64, thorough: bool) -> Vec<Value> {
 	let rt = tokio::runtime::Builder::new_multi_thread().worker_threads(3).enable_all().build().unwrap();
 	let mut rng = Rng::new(seed ^ 0xB0DA);
